@@ -1,5 +1,6 @@
 import Acra.Drv.FTI
+import Acra.Drv.Search
 namespace Acra.Drv
 def allCodecs : List Codec := ftiCodecs
-def allFuncs : List Func := ftiFuncs
+def allFuncs : List Func := ftiFuncs ++ searchFuncs
 end Acra.Drv
